@@ -214,4 +214,22 @@ def World.statusFiltered (w : World) (wf : List WT) (sts : List Status) (endpoin
   | .error e, _ => .error e
   | _, .error e => .error e
 
+/-- `gwf info`: per target (definition order) its direct dependencies and dependents -/
+def World.info (w : World) (wf : List WT) : Except GErr (List (Nat × List Nat × List Nat)) :=
+  match (w.proj wf none).graph with
+  | .error e => .error e
+  | .ok g => .ok (g.ids.map (fun t => (t, g.depsOf t, g.dependentsOf t)))
+
+def fbVisit (deps : Nat → List Nat) (ok : Nat → Bool) : Nat → Nat → Bool
+  | 0, _ => true
+  | fuel+1, t => ok t && (deps t).all (fbVisit deps ok fuel)
+
+/-- the targets whose status is decided by FILES alone (C01): no target of their dependency cone has a
+    job the backend reports as pending, running, failed or cancelled -/
+def World.fileBased (w : World) (wf : List WT) : Except GErr (List Nat) :=
+  match (w.proj wf none).graph with
+  | .error e => .error e
+  | .ok g => .ok (g.ids.filter (fun t =>
+      fbVisit g.depsOf (fun u => let b := w.bstat (nameOf wf u); b == .unknown || b == .completed) (g.ids.length + 1) t))
+
 end Gwf
